@@ -170,8 +170,69 @@ class Translator:
         import copy
         return T().visit(copy.deepcopy(node))
 
+    def _first_match(self, v, env, mod):
+        """(rows, target, tests) if v is next((... for T in TABLE if
+        TESTS), None) over a literal table (in place, a local, or a
+        module-level constant); else None."""
+        if not (isinstance(v, ast.Call) and isinstance(v.func, ast.Name) and
+                v.func.id == 'next' and len(v.args) == 2 and
+                isinstance(v.args[1], ast.Constant) and
+                v.args[1].value is None and
+                isinstance(v.args[0], ast.GeneratorExp) and
+                len(v.args[0].generators) == 1):
+            return None
+        g = v.args[0].generators[0]
+        it = g.iter
+        if isinstance(it, ast.Name):
+            if isinstance(env.get(it.id), ast.AST):
+                it = env[it.id]
+            else:
+                vals = mod.assigns.get(it.id)
+                it = vals[0] if vals and len(vals) == 1 else None
+        if not isinstance(it, (ast.Tuple, ast.List)) or not g.ifs:
+            return None
+        return list(it.elts), g.target, list(g.ifs)
+
+    def _first_lang(self, spec, var, env, mod):
+        """Lang(some row matches, evaluation raises) for a ('first', rows,
+        target, tests) marker: the rows are tried in order, a row is only
+        evaluated when all earlier ones were false."""
+        _, rows, target, tests = spec
+        alive = self.ALL
+        hit = self.NONE
+        raises = self.NONE
+        for row in rows:
+            env2 = dict(env)
+            if isinstance(target, ast.Name):
+                env2[target.id] = row
+            elif isinstance(target, ast.Tuple) and \
+                    isinstance(row, (ast.Tuple, ast.List)) and \
+                    len(row.elts) == len(target.elts):
+                for t, e in zip(target.elts, row.elts):
+                    env2[t.id] = e
+            else:
+                raise AnalysisError('rule table outside the fragment')
+            test = tests[0] if len(tests) == 1 else ast.BoolOp(
+                op=ast.And(), values=tests)
+            c = self.cond(test, var, env2, mod)
+            raises = raises | (alive & c.raises)
+            hit = hit | (alive & c.true)
+            alive = alive & c.false()
+        return Lang(hit, raises)
+
     def cond(self, node, var, env, mod):
         ab = self.ab
+        # X / X is not None / X is None for X = next((..), None)
+        tgt, neg = node, False
+        if isinstance(node, ast.Compare) and len(node.ops) == 1 and \
+                isinstance(node.ops[0], (ast.Is, ast.IsNot)) and \
+                isinstance(node.comparators[0], ast.Constant) and \
+                node.comparators[0].value is None:
+            tgt, neg = node.left, isinstance(node.ops[0], ast.Is)
+        if isinstance(tgt, ast.Name) and isinstance(env.get(tgt.id), tuple) \
+                and env[tgt.id][:1] == ('first',):
+            la = self._first_lang(env[tgt.id], var, env, mod)
+            return Lang(la.false(), la.raises) if neg else la
         if not (isinstance(node, ast.Name) and node.id in env):
             node = self._inline_locals(node, env)
         if isinstance(node, ast.Call) and isinstance(node.func, ast.Lambda) \
@@ -379,6 +440,14 @@ class Translator:
             if isinstance(s, ast.Expr) and isinstance(s.value, ast.Constant):
                 continue
             if isinstance(s, ast.Pass):
+                continue
+            if isinstance(s, ast.Assign) and len(s.targets) == 1 and \
+                    isinstance(s.targets[0], ast.Name) and \
+                    self._first_match(s.value, env, mod) is not None:
+                # X = next((msg for test, msg in TABLE if test()), None)
+                env = dict(env)
+                env[s.targets[0].id] = ('first',) + self._first_match(
+                    s.value, env, mod)
                 continue
             if isinstance(s, ast.Assign) and len(s.targets) == 1 and \
                     isinstance(s.targets[0], ast.Name):
